@@ -94,6 +94,12 @@ CHECKS['C15'] = dict(
     text='At every state within depth 2 (thorough 3) of every seed, every proposal of every enabled mutator at every node (1.2 M proposals, 3 M renderings quick; ddmin group steps included) must refer only to nodes / keys of that state, be applicable without error, produce leaves that are single tokens, and its result rendered by the checking, default, pretty and wrap renderers must be read back by ddSMT and by the independent reference reader as exactly the tree kept in memory; every declaration in fresh_vars must declare a symbol that no well-formed declaration or binder of the state introduces and must stand before the first command using it.',
     note=GRAPH_NOTE, design='3/C15')
 
+CHECKS['C04'] = dict(
+    level='model_checking', engine='GRAPH',
+    technique='explicit-state search of the rewrite graph with an every-state oracle over all unguarded main-process code paths; exhaustive small-scope enumeration of ill-formed shapes; real-process exit-status table',
+    text='(1) At every state within depth 2 (thorough 3) of every seed with all mutators enabled (so the shapes node erasure leaves behind arise: (bvand), (declare-const x), (forall), datatypes without constructors) everything ddSMT runs outside an exception guard in its main process is executed and must not raise: auto_detect_theories, collect_information, counters, reduplicate, pass construction, all four renderers and re-parsing their output, Producer.generate for every pass, TaskGenerator for every ddmin mutator at every granularity (52 k states quick); on every 7th state the tasks of the full producer must equal the union of what each mutator yields alone (containment of failures). (2) All ill-formed shapes head x arity 0..2 (thorough 3) x 11 child kinds for 64 heads in 4 contexts (35 k scripts). (3) Real runs of bin/ddsmt and python -m ddsmt: 12 completion / usage-error cases and SIGINT to the process group at the 1st/3rd/6th test for both strategies: exit status 0 iff minimisation completed, no traceback, exactly one diagnostic line for usage errors, temporary directory gone.',
+    note=GRAPH_NOTE + ' The list of unguarded code paths was read off cli.py and the strategy modules (ddv/checks/c04.py).', design='3/C04')
+
 ENGINES = [
     dict(name='GRAPH', path='ddv/graph.py', serves_properties=['C03', 'C04', 'C15'],
          kind_free_text='explicit-state breadth-first search of the rewrite graph (real mutators as transition relation), SCC detection, per-call work meter'),
